@@ -235,3 +235,16 @@ def model_values(rec, names_terms):
     out = {}
     for (n, _), (_, v) in zip(names_terms, vals): out[n] = v
     return out
+
+
+def builder_frame_check(ses, w, E, tag, proto, fkind, akind):
+    """the core builder object (self) is left as it was by try_encrypt / try_sign: a second token from the same builder is built from the same payload / footer / assertion"""
+    for se, re_ in E:
+        if is_ok(re_) and getattr(se, 'self_cell', None) is not None:
+            after = se.store[se.self_cell]; names = w.fields('Paseto'); fa = dict(zip(names, after[3])); fb = dict(zip(names, se.self_before[3]))
+            if after[1] == 'Havocked': fa = {n_: after for n_ in names}      # the function that received `&mut self` was abstracted: every field is unknown afterwards
+            for fld in names:
+                if fld in ('header',): continue
+                if not same_value(fa[fld], fb[fld]):
+                    ses.violation('%s: try_encrypt/try_sign changes the builder\'s `%s` (%s -> %s): the next token built from it differs' % (tag, fld, str(fb[fld])[:50], str(fa[fld])[:50]), {},
+                                  {'kind': 'core_builder_reuse', 'proto': proto, 'fkind': fkind, 'akind': akind})
